@@ -1,11 +1,14 @@
 package main
 
+import "fmt"
+
 // locksetMon records shared-memory accesses with the lock-set held (C17). Filled in by Par2.
 type locksetMon struct {
 	thread int
 	held   map[*Value]int // lock cell -> 1 read-held, 2 write-held
 	events []lsEvent
-	once   bool // inside sync.Once.Do
+	once   int // >0: inside sync.Once.Do
+	onceOf map[*Value]bool
 }
 
 type lsEvent struct {
@@ -13,12 +16,13 @@ type lsEvent struct {
 	obj    *Obj
 	cell   *Value
 	write  bool
+	atomic bool
 	site   string
 	locks  map[*Value]int
 	once   bool
 }
 
-func (m *monitors) access(ex *Exec, o *Obj, cell *Value, write bool, site string) {
+func (m *monitors) record(ex *Exec, o *Obj, cell *Value, write, atomic bool, site string) {
 	ls := m.lockset
 	if ls == nil || o == nil || !o.Shared {
 		return
@@ -27,5 +31,74 @@ func (m *monitors) access(ex *Exec, o *Obj, cell *Value, write bool, site string
 	for k, v := range ls.held {
 		held[k] = v
 	}
-	ls.events = append(ls.events, lsEvent{thread: ls.thread, obj: o, cell: cell, write: write, site: site, locks: held, once: ls.once})
+	ls.events = append(ls.events, lsEvent{thread: ls.thread, obj: o, cell: cell, write: write, atomic: atomic, site: site, locks: held, once: ls.once > 0})
+}
+
+func (m *monitors) access(ex *Exec, o *Obj, cell *Value, write bool, site string) {
+	m.record(ex, o, cell, write, false, site)
+}
+
+func (m *monitors) atomicAccess(ex *Exec, o *Obj, write bool, site string) {
+	m.record(ex, o, nil, write, true, site)
+}
+
+func (m *monitors) lockOp(ex *Exec, p Ptr, mode int, acquire bool) {
+	ls := m.lockset
+	if acquire {
+		ls.held[p.C] = mode
+	} else {
+		delete(ls.held, p.C)
+	}
+}
+
+func (m *monitors) onceEnter(ex *Exec, p Ptr) { m.lockset.once++ }
+func (m *monitors) onceLeave(ex *Exec, p Ptr) { m.lockset.once-- }
+
+// races: pairs of events from different threads on the same location, at least one a plain write, with no common
+// lock held in a mode that excludes the other (read locks do not exclude reads), not both inside a sync.Once body.
+func (ls *locksetMon) races() []string {
+	var out []string
+	seen := map[string]bool{}
+	for i, a := range ls.events {
+		for _, b := range ls.events[i+1:] {
+			if a.thread == b.thread || a.obj != b.obj {
+				continue
+			}
+			// different cells of the same object are different locations, except for maps (cell == nil: the whole map)
+			if a.cell != nil && b.cell != nil && a.cell != b.cell {
+				continue
+			}
+			if !a.write && !b.write {
+				continue
+			}
+			if a.atomic && b.atomic {
+				continue
+			}
+			if a.once && b.once {
+				continue // sync.Once orders its body before every later Do return
+			}
+			protected := false
+			for l, ma := range a.locks {
+				if mb, ok := b.locks[l]; ok && (ma == 2 || mb == 2) {
+					protected = true
+				}
+			}
+			if protected {
+				continue
+			}
+			k := fmt.Sprintf("%s: %s (%s) / %s (%s)", a.obj.Site, a.site, rw(a.write), b.site, rw(b.write))
+			if !seen[k] {
+				seen[k] = true
+				out = append(out, k)
+			}
+		}
+	}
+	return out
+}
+
+func rw(w bool) string {
+	if w {
+		return "write"
+	}
+	return "read"
 }
